@@ -680,6 +680,208 @@ Section WarcProofs.
     - inversion H; subst recs. destruct HR as [H1 H2]. subst ov. rewrite H2. split; [reflexivity|constructor].
   Qed.
 
+  (* ------------------------------------------------------------ broken header blocks, class by class *)
+  (* one iteration of the header loop on a line that is not a Content-Length line *)
+  Lemma header_step_plain fuel lfuel rs out consumed line seen len0 pre h tail :
+    rinv rs -> line <> [] -> plain_hdr h ->
+    out ++ rem rs = pre ++ h ++ 10 :: tail -> length pre = consumed -> (consumed <= length out)%nat ->
+    (length (rem rs) < lfuel)%nat ->
+    exists out1 rs1,
+      header_loop (S fuel) lfuel rs out consumed line seen len0 =
+      header_loop fuel lfuel rs1 out1 (S (consumed + length h)) (strip_cr_end h) seen len0 /\
+      out1 ++ rem rs1 = (pre ++ h ++ [10]) ++ tail /\ (S (consumed + length h) <= length out1)%nat /\
+      (length (rem rs1) <= length (rem rs))%nat /\ rinv rs1.
+  Proof.
+    intros Hi Hline [Hno [Hsne Hncl]] HS Hpre Hco Hlf.
+    destruct (hline_ok lfuel rs out consumed consumed pre h tail Hi HS Hpre Hno ltac:(lia) Hco Hlf)
+      as [out1 [rs1 [HL [HS1 [Hlen [Hrl [_ Hi1]]]]]]].
+    exists out1, rs1. destruct line as [|l0 line]; [congruence|].
+    cbn [WarcDefs.header_loop]. rewrite HL. rewrite Hncl.
+    split; [reflexivity|]. split; [rewrite HS1; norm_app; reflexivity|]. split; [lia|]. split; assumption.
+  Qed.
+
+  (* ... on the (first) Content-Length line *)
+  Lemma header_step_cl fuel lfuel rs out consumed line len0 pre h n tail :
+    rinv rs -> line <> [] -> cl_line h n ->
+    out ++ rem rs = pre ++ h ++ 10 :: tail -> length pre = consumed -> (consumed <= length out)%nat ->
+    (length (rem rs) < lfuel)%nat ->
+    exists out1 rs1,
+      header_loop (S fuel) lfuel rs out consumed line false len0 =
+      header_loop fuel lfuel rs1 out1 (S (consumed + length h)) (strip_cr_end h) true (Z.of_nat n) /\
+      out1 ++ rem rs1 = (pre ++ h ++ [10]) ++ tail /\ (S (consumed + length h) <= length out1)%nat /\
+      (length (rem rs1) <= length (rem rs))%nat /\ rinv rs1 /\ strip_cr_end h <> [].
+  Proof.
+    intros Hi Hline Hc HS Hpre Hco Hlf.
+    destruct (cl_line_facts h n Hc) as [Hno [Hcl Hst]].
+    destruct (hline_ok lfuel rs out consumed consumed pre h tail Hi HS Hpre Hno ltac:(lia) Hco Hlf)
+      as [out1 [rs1 [HL [HS1 [Hlen [Hrl [_ Hi1]]]]]]].
+    assert (Hout1 : exists more, out1 = pre ++ h ++ 10 :: more).
+    { assert (HS1' : (pre ++ h ++ [10]) ++ tail = out1 ++ rem rs1) by (rewrite HS1; norm_app; reflexivity).
+      destruct (app_split_nat _ _ _ _ HS1') as [t [Ho _]]; [rewrite !app_length; simpl; lia|].
+      exists t. rewrite Ho. norm_app. reflexivity. }
+    destruct Hout1 as [more Hout1].
+    destruct (Hst more) as [used [Hstr [Hused Hnz]]].
+    assert (Hskip : skipn (consumed + length warc_cl_name) out1 = skipn (length warc_cl_name) h ++ 10 :: more).
+    { assert (Hle : (length warc_cl_name <= length h)%nat).
+      { destruct Hc as [name [ws [plus [ds [cr [Eh [Hnl _]]]]]]]. rewrite Eh, app_length. lia. }
+      rewrite Hout1. rewrite skipn_app. rewrite skipn_all2 by lia. rewrite app_nil_l.
+      replace (consumed + length warc_cl_name - length pre)%nat with (length warc_cl_name) by lia.
+      rewrite skipn_app.
+      replace (length warc_cl_name - length h)%nat with 0%nat by lia. reflexivity. }
+    exists out1, rs1. destruct line as [|l0 line]; [congruence|].
+    cbn [WarcDefs.header_loop]. rewrite HL. rewrite Hcl. cbv iota.
+    rewrite Hskip, Hstr.
+    assert (Hu0 : Nat.eqb used 0 = false) by (apply Nat.eqb_neq; exact Hnz).
+    rewrite Hu0. rewrite andb_false_r. simpl orb.
+    rewrite Hused. rewrite Nat.eqb_refl. simpl negb. cbv iota.
+    assert (Hneg : (Z.of_nat n <? 0) = false) by lia.
+    rewrite Hneg. rewrite andb_false_r. cbv iota.
+    split; [reflexivity|]. split; [rewrite HS1; norm_app; reflexivity|]. split; [lia|]. split; [assumption|].
+    split; [assumption|]. intros E. rewrite E in Hcl. discriminate.
+  Qed.
+
+  (* what is left of a header block that cannot be accepted: no Content-Length
+     before the blank line, or a second Content-Length line (whatever its value) *)
+  Inductive hdrs_bad : bool -> list Z -> nat -> Prop :=
+  | bad_missing blank post : (blank = [] \/ blank = [13]) -> hdrs_bad false (blank ++ 10 :: post) 0
+  | bad_dup h post : no10 h -> is_content_length (strip_cr_end h) = true -> hdrs_bad true (h ++ 10 :: post) 0
+  | bad_plain seen h tail k : plain_hdr h -> hdrs_bad seen tail k -> hdrs_bad seen (h ++ 10 :: tail) (S k)
+  | bad_cl h n tail k : cl_line h n -> hdrs_bad true tail k -> hdrs_bad false (h ++ 10 :: tail) (S k).
+
+  Lemma header_bad : forall seen tail k, hdrs_bad seen tail k ->
+    forall fuel lfuel rs out consumed line len0 pre, rinv rs -> line <> [] ->
+    out ++ rem rs = pre ++ tail -> length pre = consumed -> (consumed <= length out)%nat ->
+    (k < fuel)%nat -> (length (rem rs) < lfuel)%nat ->
+    header_loop fuel lfuel rs out consumed line seen len0 = HdrErr _ WFormat.
+  Proof.
+    intros seen tail k H. induction H as [blank post Hbl|h post Hno Hcl|seen h tail k Hp Hb IH|h n tail k Hc Hb IH];
+      intros fuel lfuel rs out consumed line len0 pre Hi Hline HS Hpre Hco Hfu Hlf;
+      (destruct fuel as [|fuel]; [lia|]).
+    - assert (Hnb : no10 blank) by (destruct Hbl; subst; repeat constructor; lia).
+      destruct (hline_ok lfuel rs out consumed consumed pre blank post Hi HS Hpre Hnb ltac:(lia) Hco Hlf)
+        as [out' [rs' [HL _]]].
+      destruct line as [|l0 line]; [congruence|].
+      cbn [WarcDefs.header_loop]. rewrite HL.
+      assert (Hsb : strip_cr_end blank = []) by (destruct Hbl; subst; reflexivity).
+      rewrite Hsb. change (is_content_length []) with false. cbv iota.
+      destruct fuel; reflexivity.
+    - destruct (hline_ok lfuel rs out consumed consumed pre h post Hi HS Hpre Hno ltac:(lia) Hco Hlf)
+        as [out' [rs' [HL _]]].
+      destruct line as [|l0 line]; [congruence|].
+      cbn [WarcDefs.header_loop]. rewrite HL. rewrite Hcl. reflexivity.
+    - destruct (header_step_plain fuel lfuel rs out consumed line seen len0 pre h tail Hi Hline Hp HS Hpre Hco Hlf)
+        as [out1 [rs1 [HE [HS1 [Hlen [Hrl Hi1]]]]]].
+      rewrite HE. destruct Hp as [_ [Hsne _]].
+      apply (IH fuel lfuel rs1 out1 _ _ len0 (pre ++ h ++ [10])); auto; try lia.
+      rewrite !app_length. simpl. lia.
+    - destruct (header_step_cl fuel lfuel rs out consumed line len0 pre h n tail Hi Hline Hc HS Hpre Hco Hlf)
+        as [out1 [rs1 [HE [HS1 [Hlen [Hrl [Hi1 Hsne]]]]]]].
+      rewrite HE.
+      apply (IH fuel lfuel rs1 out1 _ _ (Z.of_nat n) (pre ++ h ++ [10])); auto; try lia.
+      rewrite !app_length. simpl. lia.
+  Qed.
+
+  Lemma list_eqb_neq a b : a <> b -> list_eqb a b = false.
+  Proof. intros H. destruct (list_eqb a b) eqn:E; [|reflexivity]. apply list_eqb_eq in E. contradiction. Qed.
+
+  (* the first line is not "WARC/1.0" (CR allowed): a format error *)
+  Theorem bad_version_is_error_proof fuel rs ov vline post : rinv rs ->
+    ov ++ rem rs = vline ++ 10 :: post -> no10 vline -> strip_cr_end vline <> warc_version ->
+    (length (rem rs) < fuel)%nat ->
+    warc_read fuel rs ov = RecErr _ WFormat.
+  Proof.
+    intros Hi HS Hno Hv Hf. unfold WarcDefs.warc_read.
+    destruct (hline_ok fuel rs ov 0 0 [] vline post Hi HS eq_refl Hno ltac:(lia) ltac:(lia) Hf) as [out1 [rs1 [HL _]]].
+    rewrite HL. rewrite (list_eqb_neq _ _ Hv). reflexivity.
+  Qed.
+
+  (* a header block without Content-Length, or with a second one: a format error *)
+  Theorem bad_header_is_error_proof fuel rs ov vline tail k : rinv rs ->
+    ov ++ rem rs = vline ++ 10 :: tail -> no10 vline -> strip_cr_end vline = warc_version ->
+    hdrs_bad false tail k -> (k < fuel)%nat -> (length (rem rs) < fuel)%nat ->
+    warc_read fuel rs ov = RecErr _ WFormat.
+  Proof.
+    intros Hi HS Hno Hv Hb Hk Hf. unfold WarcDefs.warc_read.
+    destruct (hline_ok fuel rs ov 0 0 [] vline tail Hi HS eq_refl Hno ltac:(lia) ltac:(lia) Hf)
+      as [out1 [rs1 [HL [HS1 [Hlen [Hrl [_ Hi1]]]]]]].
+    rewrite HL. rewrite Hv, list_eqb_refl. cbn [negb].
+    rewrite (header_bad false tail k Hb fuel fuel rs1 out1 (S (0 + length vline)) warc_version 0 (vline ++ [10])); auto.
+    - discriminate.
+    - rewrite HS1. norm_app. reflexivity.
+    - rewrite app_length. simpl. lia.
+    - lia.
+  Qed.
+
+  (* a record whose last four bytes are not CR LF CR LF: a format error *)
+  Theorem bad_terminator_is_error_proof fuel rs ov r rest vline hs blank body term : rinv rs ->
+    r = vline ++ [10] ++ lines_bytes hs ++ blank ++ [10] ++ body ++ term ->
+    no10 vline -> strip_cr_end vline = warc_version -> hdrs false hs (length body) ->
+    (blank = [] \/ blank = [13]) -> Z.of_nat (length r) < alloc_limit ->
+    length term = 4%nat -> term <> warc_trailer ->
+    ov ++ rem rs = r ++ rest -> (length (r ++ rest) + 1 < fuel)%nat ->
+    warc_read fuel rs ov = RecErr _ WFormat.
+  Proof.
+    intros Hi Er Hnv Hsv Hh Hbl Hsz Hterm Hbad HS Hf.
+    assert (Hrem_le : (length (rem rs) <= length (r ++ rest))%nat).
+    { rewrite <- HS, app_length. lia. }
+    unfold WarcDefs.warc_read.
+    (* the version line *)
+    assert (HS0 : ov ++ rem rs = [] ++ vline ++ 10 :: (lines_bytes hs ++ blank ++ [10] ++ body ++ term) ++ rest).
+    { rewrite HS, Er. norm_app. reflexivity. }
+    destruct (hline_ok fuel rs ov 0 0 [] vline _ Hi HS0 eq_refl Hnv ltac:(lia) ltac:(lia) ltac:(lia))
+      as [out1 [rs1 [HL [HS1 [Hlen1 [Hrl1 [_ Hi1]]]]]]].
+    rewrite HL. rewrite Hsv. rewrite list_eqb_refl. cbn [negb].
+    (* the header lines *)
+    assert (HS1' : out1 ++ rem rs1 = (vline ++ [10]) ++ lines_bytes hs ++ blank ++ 10 :: (body ++ term ++ rest)).
+    { rewrite HS1. norm_app. reflexivity. }
+    pose proof (lines_bytes_length hs) as Hlb.
+    assert (Hrl : (length r = length vline + 1 + length (lines_bytes hs) + length blank + 1 + length body + 4)%nat).
+    { rewrite Er. rewrite !app_length. simpl. rewrite Hterm. lia. }
+    assert (Hvne : warc_version <> []) by discriminate.
+    assert (Hp1 : length (vline ++ [10]) = S (0 + length vline)) by (rewrite app_length; simpl; lia).
+    assert (Hc1 : (S (0 + length vline) <= length out1)%nat) by lia.
+    assert (Hf1 : (length hs < fuel)%nat) by (rewrite app_length in Hf; lia).
+    assert (Hf2 : (length (rem rs1) < fuel)%nat) by lia.
+    destruct (header_ok hs false (length body) Hh fuel fuel rs1 out1 (S (0 + length vline)) warc_version 0
+                        (vline ++ [10]) (body ++ term ++ rest) blank Hi1 Hvne HS1' Hp1 Hc1 Hbl Hf1 Hf2)
+      as [out2 [rs2 [HH [HS2 [Hlen2 [Hrl2 Hi2]]]]]].
+    rewrite HH. cbv iota.
+    set (consumed2 := (S (0 + length vline) + length (lines_bytes hs) + length blank + 1)%nat) in *.
+    assert (Htot : (Z.of_nat consumed2 + Z.of_nat (length body) mod size_max + Z.of_N warc_trailer_len) mod size_max
+                   = Z.of_nat (length r)).
+    { change (Z.of_N warc_trailer_len) with 4. unfold alloc_limit in Hsz. unfold size_max.
+      rewrite (Z.mod_small (Z.of_nat (length body))) by lia.
+      rewrite Z.mod_small by (unfold consumed2; lia). unfold consumed2. lia. }
+    rewrite Htot.
+    assert (HS2' : out2 ++ rem rs2 = r ++ rest).
+    { rewrite HS2, Er. norm_app. reflexivity. }
+    assert (Htrail : list_eqb (skipn (length r - N.to_nat warc_trailer_len) r) warc_trailer = false).
+    { change (N.to_nat warc_trailer_len) with 4%nat.
+      assert (Er2 : r = (vline ++ [10] ++ lines_bytes hs ++ blank ++ [10] ++ body) ++ term).
+      { rewrite Er. norm_app. reflexivity. }
+      set (X := vline ++ [10] ++ lines_bytes hs ++ blank ++ [10] ++ body) in *.
+      assert (HX : length X = (length r - 4)%nat).
+      { rewrite Er2, app_length. rewrite Hterm. lia. }
+      rewrite Er2 at 2. rewrite skipn_app. rewrite skipn_all2 by lia. rewrite app_nil_l.
+      replace (length r - 4 - length X)%nat with 0%nat by lia.
+      apply list_eqb_neq. exact Hbad. }
+    destruct (overhang_test (Z.of_nat (length r)) (Z.of_nat (length out2))) eqn:Elt.
+    - (* the whole record (and possibly more) is already in the buffer *)
+      assert (Hle : (length r <= length out2)%nat) by (unfold overhang_test in Elt; destruct warc_overhang_le; lia).
+      destruct (app_split_nat _ _ _ _ (eq_sym HS2') Hle) as [t [Ho Hr]].
+      rewrite Nat2Z.id.
+      assert (Hfr : firstn (length r) out2 = r).
+      { rewrite Ho. rewrite firstn_app, firstn_all, Nat.sub_diag. simpl. apply app_nil_r. }
+      rewrite Hfr. rewrite Htrail. reflexivity.
+    - assert (Hal : (Z.of_nat (length r) >=? alloc_limit) = false) by lia.
+      rewrite Hal.
+      assert (Hge : (length out2 <= length r)%nat) by (unfold overhang_test in Elt; destruct warc_overhang_le; lia).
+      destruct (read_exact_ok fuel rs2 out2 r rest Hi2 HS2') as [rs3 [HX [Hr3 Hi3]]]; [lia| |].
+      { rewrite app_length in Hf. lia. }
+      rewrite HX. rewrite Htrail. reflexivity.
+  Qed.
+
+
   (* ------------------------------------------------------------ termination on every input *)
   Lemma find_nl_bounds l : forall i j, find_nl l i = Some j -> (i <= j < i + length l)%nat.
   Proof.
